@@ -85,8 +85,9 @@ func VerifC07_submit() {
 	exp := ndUint64("expiration")
 	inCycle := ndBool("inCycle")
 	ndAssume(exp < 1<<40)
+	hadReports := ndBool("roundAlreadyHasReports")
 	if hasRound {
-		if err := k.Query.Set(ctx, collections.Join(qid, uint64(7)), types.QueryMeta{Id: 7, Amount: tip, Expiration: exp, RegistrySpecBlockWindow: 10, QueryData: qd, CycleList: inCycle, QueryType: "SpotPrice"}); err != nil {
+		if err := k.Query.Set(ctx, collections.Join(qid, uint64(7)), types.QueryMeta{Id: 7, Amount: tip, Expiration: exp, RegistrySpecBlockWindow: 10, QueryData: qd, CycleList: inCycle, QueryType: "SpotPrice", HasRevealedReports: hadReports}); err != nil {
 			panic(err)
 		}
 	}
